@@ -272,7 +272,15 @@ def judge(job, lines, crashed, stderr=''):
             if {lkey(a): t for a, t in got} != {lkey(a): t for a, t in exp} or len(got) != len(exp):
                 out.append("call %d %s returned %r, model says %r" % (k + 1, json.dumps(c), got, exp))
         elif c['op'] == 'clone':
-            pass
+            cs = got.get('clone') if isinstance(got, dict) else None
+            if cs is None:
+                out.append("call %d clone returned no snapshot" % (k + 1))
+            else:
+                for key in ('vertices', 'branches', 'stores', 'next_v'):
+                    if cs[key] != snap[key]:
+                        out.append("call %d clone(): the copy differs from the original in %s: %r vs %r" % (
+                            k + 1, key, json.dumps(cs[key])[:200], json.dumps(snap[key])[:200]))
+                        break
         elif got != exp:
             out.append("call %d %s returned %r, model says %r" % (k + 1, json.dumps(c), got, exp))
         if c.get('on') != 'clone':
